@@ -341,3 +341,6 @@ OUTSIDE = ["the kernel's own O_EXCL semantics (open('x') is trusted to fail on a
 TRUSTED = ["CrossHair/z3 (the only symbolic inputs are booleans: the path tree enumerates them lazily, through the real CLI code)", "FP/FS: in-memory model of the pathlib members used on the output side",
            "the logging module as seen by pretext_to_asm replaced by a recorder whose basicConfig opens filename with filemode (real LogRecords read time.time(), which CrossHair makes symbolic)", "click.echo replaced by a recorder",
            "loader: logging calls of the OTHER modules and format specs cut (display only); message text and tokens untouched"]
+
+TECHNIQUE = ("CrossHair path exploration over symbolic booleans (pre-existence of each output, clobber, write-log) through the real pretext-to-asm CLI callback on an in-memory file system")
+LEVEL_TEXT = ("Every subset of pre-existing outputs x clobber x write-log is decided through the real CLI code; the only symbolic inputs are booleans and one size, so this is exhaustive case analysis by the engine rather than arithmetic reasoning.")
